@@ -37,6 +37,19 @@ def gen(rng, tier):
         cases.append({"concurrency": rng.choice([1, 1, 2]), "bufsize": 1000, "flushmaxnum": rng.choice([14, 50, 150]), "flushmaxwait_ms": 50,
                       "blocking": True, "faults": [rng.choice(["500", "reset", "503trunc"]) for _ in range(rng.choice([1, 2]))], "lines": lines,
                       "pause_every": 0, "shutdown": True})
+    # tagged series sent with their tags in varying order (the series is the name plus the SET of tags), workers delayed by failures
+    for k in range(2 if tier == "quick" else 16):
+        base = rng.sample(["t.s", "web.cpu", "x.y", "db.q"], rng.choice([1, 2]))
+        tagsets = [["a=1", "b=2"], ["dc=us", "host=h1", "env=p"], ["k=v", "z=q"]]
+        lines, ts = [], {}
+        for i in range(rng.choice([40, 80])):
+            nm, tg = rng.choice(base), list(rng.choice(tagsets))
+            rng.shuffle(tg)
+            key = nm + ";" + ";".join(sorted(tg))
+            ts[key] = ts.get(key, 1000) + 10
+            lines.append("%s;%s %d %d" % (nm, ";".join(tg), 8000000 + k * 100000 + i, ts[key]))
+        cases.append({"concurrency": rng.choice([3, 5, 7]), "bufsize": 1000, "flushmaxnum": rng.choice([3, 5]), "flushmaxwait_ms": 20, "blocking": True,
+                      "faults": [rng.choice(["hang", "500", "ok"]) for _ in range(4)], "lines": lines, "pause_every": 1, "shutdown": True})
     for k in range(n):
         conc = rng.choice([1, 1, 2, 3, 4])
         blocking = rng.random() < .3
@@ -56,8 +69,16 @@ def gen(rng, tier):
     return cases
 
 
+def canon(name):
+    """the series a line belongs to: its name plus its tags, sorted (what the metric record carries)"""
+    if ";" not in name:
+        return name
+    parts = name.split(";")
+    return ";".join([parts[0]] + sorted(parts[1:]))
+
+
 def pt(p):
-    return ctuple(ctuple(cbytes(p[0]), cbytes(p[1])), cbytes(p[2]))
+    return ctuple(ctuple(cbytes(canon(p[0])), cbytes(p[1])), cbytes(p[2]))
 
 
 def to_coq(case, obs):
@@ -109,7 +130,8 @@ def signature(case, obs, code, err):
 MANIFEST = {
     "text": "Theorems (Props/C17.v): a flush re-posts the same body until the first 2xx and completes whenever one arrives; for every sequence of worker "
             "events and faults acknowledged++batch++queue is exactly what the shard received, in order (nothing skipped, series order kept); "
-            "full buffer = counted drop (non-blocking) or wait (blocking); shutdown makes every worker drain its queue, flush and report done. "
+            "full buffer = counted drop (non-blocking) or wait (blocking); shutdown makes every worker drain its queue, flush and report done; "
+            "the worker of a series does not depend on the order its tags are listed in (as repaired, 5b94d75). "
             "Tie: a real grafanaNet route against a scripted HTTP server, decoded bodies judged by the acceptor gn_ok.",
     "note": "Partial: eventual acknowledgement needs the fairness hypothesis that a 2xx eventually comes; timing (flushMaxWait, backoff) is not modelled; the live runs sample schedules. Trusted: net/http, snappy, msgp.",
 }
